@@ -648,3 +648,25 @@ mutant('C13', 'lock-decision-before-propagation', SV, "        self._compute_ang
 mutant('C01', 'lock-decision-before-propagation', SV, "        self._compute_angular_position_and_speed()\n        self._check_powertrain_is_locked()\n", "        self._check_powertrain_is_locked()\n        self._compute_angular_position_and_speed()\n", 'C01.order')
 mutant('C02', 'motor-law-on-wrong-element', SV, "        self.__powertrain.elements[0].compute_torque()", "        self.__powertrain.elements[1].compute_torque()", 'C02.motor')
 mutant('C17', 'current-computed-on-wrong-element', SV, "        if self.__powertrain.elements[0].electric_current_is_computable:\n            self.__powertrain.elements[0].compute_electric_current()", "        if self.__powertrain.elements[0].electric_current_is_computable:\n            self.__powertrain.elements[1].compute_electric_current()", 'C17.computed')
+
+# ------------------------------------------------------------------------------------------ forwarding clones (sweep B)
+mutant('C02', 'motor-load-setter-forwards-to-driving', DC, 'super(DCMotor, type(self)).load_torque.fset(self, load_torque)', 'super(DCMotor, type(self)).driving_torque.fset(self, load_torque)', 'C02.forwarding')
+mutant('C01', 'motor-speed-setter-forwards-to-position', DC, 'super(DCMotor, type(self)).angular_speed.fset(self, angular_speed)', 'super(DCMotor, type(self)).angular_position.fset(self, angular_speed)', 'C01.forwarding')
+mutant('C17', 'motor-torque-getter-forwards-to-load', DC, '        return super().torque\n', '        return super().load_torque\n', 'C17.forwarding')
+mutant('C14', 'add-rule-does-not-append', 'gearpy/motor_control/pwm_control.py', 'self.__rules.append(rule)', 'self.__rules = [rule]', 'C14.shape')
+mutant('C14', 'pwm-not-initialised', DC, '        self.__pwm = 1\n', '        self.__pwm = 0\n', 'C14.range')
+
+# ------------------------------------------------------------------------------------------ C20 comprehension forms (round 2)
+_SCAN = """        self.__self_locking = False
+        for element in self.elements:
+            if isinstance(element, WormGear):
+                if element.self_locking:
+                    self.__self_locking = True
+"""
+benign('C20', 'scan-as-any', PT, _SCAN, """        self.__self_locking = any(isinstance(element, WormGear) and element.self_locking for element in self.elements)
+""")
+mutant('C20', 'scan-first-worm-only', PT, _SCAN, """        worm_gear = next((element for element in self.elements if isinstance(element, WormGear)), None)
+        self.__self_locking = worm_gear is not None and worm_gear.self_locking is True
+""", 'C20.locking')
+mutant('C20', 'scan-any-gear', PT, _SCAN, """        self.__self_locking = any(isinstance(element, WormGear) for element in self.elements)
+""", 'C20.locking')
